@@ -570,7 +570,7 @@ func (r *renderer) expr(e Expr, minPrec int) string {
 		for _, it := range v.Items {
 			parts = append(parts, r.argExpr(it))
 		}
-		return r.bracketList(parts)
+		return r.bracketList(parts, true)
 	case DictLit:
 		if len(v.Keys) == 0 {
 			return r.l.p("【", "[") + "=" + r.l.p("】", "]")
@@ -583,7 +583,7 @@ func (r *renderer) expr(e Expr, minPrec int) string {
 			}
 			parts = append(parts, ks+" = "+r.argExpr(v.Vals[i]))
 		}
-		return r.bracketList(parts)
+		return r.bracketList(parts, false)
 	case Call:
 		s := r.callPart(v.CallPart)
 		if v.Yield != "" {
@@ -640,9 +640,13 @@ func (r *renderer) topExprInBraces(e Expr) string {
 	return r.expr(e, 0)
 }
 
-func (r *renderer) bracketList(parts []string) string {
+func (r *renderer) bracketList(parts []string, list bool) string {
 	open, close := r.l.p("【", "["), r.l.p("】", "]")
 	sep := r.l.p("，", ",")
+	// the items of a list may also be separated by 、 (the BNF and the library chapter write it so)
+	if list && r.l.OptComma && r.l.Rng != nil && r.l.Rng.Intn(3) == 0 {
+		sep = "、"
+	}
 	if r.l.Breaks && !r.noBreak && r.l.coin() {
 		ind := r.contIndent(2)
 		s := open + r.l.eol()
